@@ -193,11 +193,10 @@ def max_level(ops):
 
 def check_e2e(impl, path, ops, ref, jmpi=True):
     """None if the run keeps every function intact and behaves like the reference, else a description.
-    jmpi: the program takes label addresses (laddr / lref + jmpi).  For those, when some function was generated at
-    -O2/-O3, what the *machine code* does is C01's business (known findings there: the optimiser still dies on or
-    miscompiles ~10% of such programs): then only the MIR-level observations decide -- text, instruction identity,
-    vars, original_insns, lref fields, addresses, machine_code stability, MIR_gen's return value.  Programs without
-    label addresses are compared with the reference at every level."""
+    Results, external-call log and memory are compared with the reference at every optimisation level (census on
+    /repo f9a528c1: no value disagreement on 480 label-address programs at -O2/-O3).  jmpi: the program takes label
+    addresses (laddr / lref + jmpi); for those a *crash of optimised code* at -O2/-O3 is skipped (C01's open
+    use-after-free of a deleted label can also corrupt running code), a wrong value is not."""
     o = run_g(impl, path, ops)
     if jmpi and max_level(ops) >= 2 and 'CRASH:run' in o:
         return 'SKIP:optimised-code-crashed'
@@ -236,8 +235,6 @@ def check_e2e(impl, path, ops, ref, jmpi=True):
     if last != rlast:
         diff = [k for k in last if last[k] != rlast.get(k)]
         return 'text of functions differs from the never-generated reference: %s' % diff[:5]
-    if jmpi and max_level(ops) >= 2:
-        return None
     if res != rres:
         return 'results differ from the interpreter-only reference: %s vs %s' % (res, rres)
     if tail != rtail:
